@@ -104,10 +104,10 @@ func c02Payloads(e fit.VerifField, fd fitmodel.FieldDef, big bool) [][]byte {
 		out = append(out, p)
 	}
 	if fd.Base == fitmodel.String {
-		fill(func(i int) byte { return byte('a' + i%26) })           // no terminator
+		fill(func(i int) byte { return byte('a' + i%26) })                                             // no terminator
 		fill(func(i int) byte { return map[bool]byte{true: 0, false: byte('A' + i%26)}[i == size-1] }) // terminated at end
-		fill(func(i int) byte { return map[bool]byte{true: 0, false: byte('k' + i%9)}[i >= size/2] })   // terminated in the middle, NUL padded
-		fill(func(i int) byte { return 0 })                          // empty
+		fill(func(i int) byte { return map[bool]byte{true: 0, false: byte('k' + i%9)}[i >= size/2] })  // terminated in the middle, NUL padded
+		fill(func(i int) byte { return 0 })                                                            // empty
 		if e.Array {
 			fill(func(i int) byte { return map[bool]byte{true: 0, false: byte('p' + i%5)}[i%3 == 2] }) // several strings
 		}
